@@ -48,6 +48,18 @@ def scenarios(tier, seed):
                     # hot holds b as well: room for the return of a or not
                     out.append((cfg, [{"op": "StoreCold", "o": "a"}, {"op": "StoreHot", "o": "b"}, {"op": "C2H"}]
                                 + [tick] * n + [{"op": "H2C"}] + [tick] * n))
+    # two observations in one tier: partial last steps, refusal decided by the
+    # observation that is actually moved (the newest stored one)
+    for s1, s2 in ((6, 7), (4, 5), (2, 3), (5, 3)):
+        for hr, cr in ((3, 3), (2, 3), (3, 2), (1, 3)):
+            n = max(s1, s2) + 2
+            cfg = buf_cfg(20, 30, hr, cr, [s1, s2])
+            out.append((cfg, [{"op": "StoreCold", "o": "a"}, {"op": "StoreCold", "o": "b"}, {"op": "C2H"}]
+                        + [tick] * n + [{"op": "C2H"}] + [tick] * n + [{"op": "H2C"}] + [tick] * n))
+            for cold_cap in (min(s1, s2), max(s1, s2) - 1 if max(s1, s2) - 1 >= 1 else 1, max(s1, s2)):
+                cfg = buf_cfg(20, cold_cap, hr, cr, [s1, s2])
+                out.append((cfg, [{"op": "StoreHot", "o": "a"}, {"op": "StoreHot", "o": "b"}, {"op": "H2C"}]
+                            + [tick] * n + [{"op": "H2C"}] + [tick] * n))
     rng = random.Random(f"buf-{seed}")
     for _ in range(40 if tier == "quick" else 600):
         s1, s2 = rng.randint(1, 6), rng.randint(1, 6)
